@@ -184,7 +184,12 @@ defvjp(anp.square, lambda ans, x: lambda g: g * 2 * x)
 defvjp(anp.sqrt, lambda ans, x: lambda g: g * 0.5 * x**-0.5)
 defvjp(
     anp.sinc,
-    lambda ans, x: lambda g: g * (anp.cos(anp.pi * x) * anp.pi * x - anp.sin(anp.pi * x)) / (anp.pi * x**2),
+    lambda ans, x: lambda g: g
+    * anp.where(
+        x == 0,
+        0.0,
+        (anp.cos(anp.pi * x) * anp.pi * x - anp.sin(anp.pi * x)) / (anp.pi * replace_zero(x, 1.0) ** 2),
+    ),
 )
 defvjp(anp.reshape, lambda ans, x, shape, order=None: lambda g: anp.reshape(g, anp.shape(x), order=order))
 defvjp(anp.roll, lambda ans, x, shift, axis=None: lambda g: anp.roll(g, -shift, axis=axis))
